@@ -290,7 +290,7 @@ mod imp {
                 });
                 out.ops_executed += 1;
                 if let Err(p) = r {
-                    if p.msg.starts_with("harness:") || p.loc.contains("/verif/sim/") {
+                    if p.msg.starts_with("harness:") || p.is_harness() {
                         panic!("harness panic: {} at {}", p.msg, p.loc);
                     }
                     out.discarded = Some("panic".into());
@@ -354,7 +354,7 @@ mod imp {
                         let proof = match catch_op(|| s.eg.explain_equivalence(re1, re2)) {
                             Ok(p) => p,
                             Err(p) => {
-                                if p.loc.contains("/verif/sim/") {
+                                if p.is_harness() {
                                     panic!("harness panic: {} at {}", p.msg, p.loc);
                                 }
                                 out.violations.push(panic_violation("C07", "explain_returns", &p, k));
@@ -369,7 +369,7 @@ mod imp {
                         });
                         match res {
                             Err(p) => {
-                                if p.loc.contains("/verif/sim/") {
+                                if p.is_harness() {
                                     panic!("harness panic: {} at {}", p.msg, p.loc);
                                 }
                                 out.violations.push(panic_violation("C07", "proof_readable", &p, k));
